@@ -392,6 +392,9 @@ theorem srun_inv (log : List Entry) (c : ACfg) (hg : GoodCfg c) (c0 lo : Int)
       | fire =>
         simp only [sstep, safe, accD, accTl, true_and]
         exact ⟨hI.cov, hI.pend⟩
+      | reset =>
+        simp only [sstep, safe, accD, accTl, true_and]
+        exact ⟨hI.cov, fun u hu => by simp at hu⟩
     obtain ⟨h1, h2⟩ := ih _ _ _ hstep.2 hw.2
     simp only [srun]
     rw [safe_append, accD_append, accTl_append]
@@ -410,6 +413,51 @@ def lastStore (v0 : Int) : List SEv → Int
   | [] => v0
   | .store v :: r => lastStore v r
   | _ :: r => lastStore v0 r
+
+/-! ### The persisted value is the box position -/
+
+theorem lastStore_append (a : List SEv) : ∀ (v0 : Int) (b : List SEv), lastStore v0 (a ++ b) = lastStore (lastStore v0 a) b := by
+  induction a with
+  | nil => intro v0 b; rfl
+  | cons e t ih => intro v0 b; cases e <;> simp [lastStore, ih]
+
+/-- After every well-formed op the value persisted last is the position of the box (every change
+of the position is written, and nothing else is): what a new worker reads from the storage is where
+the old one was. -/
+theorem sstep_lastStore (log : List Entry) (c : ACfg) (hg : GoodCfg c) (b : Box) (op : SOp)
+    (hw : wfOp log c.isMarker b op = true) :
+    lastStore b.state (sstep c b op).2 = (sstep c b op).1.state := by
+  cases op with
+  | push e =>
+    simp only [sstep]
+    rcases handle_shape b e.upd true with ⟨h1, h2⟩ | ⟨ns, us, h1, _, _, h2⟩
+    · rw [h1, h2]; rfl
+    · rw [h1, h2]
+      simp only [List.flatMap_cons, List.flatMap_nil, List.append_nil, applyEvs, hg.calls, callEvs, if_true]
+      split <;> simp [lastStore]
+  | clear => rfl
+  | fire => rfl
+  | reset => rfl
+  | seq calls x direct =>
+    simp only [wfOp, Bool.or_eq_true, Bool.and_eq_true, List.all_eq_true, decide_eq_true_eq] at hw
+    simp only [sstep]
+    rcases hw.2 with (((⟨hs, _⟩ | ⟨hs, _⟩) | hs) | hs) | ⟨hs, hx⟩
+    · subst hs; simp only [diffShape, callEvs]; split <;> simp [lastStore]
+    · subst hs; simp [emptyShape, callEvs, lastStore]
+    · subst hs; simp [tooLongShape, callEvs, lastStore]
+    · subst hs; simp [cbOnlyShape, callEvs, lastStore]
+    · subst hs; simp [storeOnlyShape, callEvs, lastStore, hx]
+
+theorem srun_lastStore (log : List Entry) (c : ACfg) (hg : GoodCfg c) (ops : List SOp) :
+    ∀ b : Box, wfRun c log b ops = true → lastStore b.state (srun c b ops).2 = (srun c b ops).1.state := by
+  induction ops with
+  | nil => intro b _; rfl
+  | cons op ops ih =>
+    intro b hw
+    simp only [wfRun, Bool.and_eq_true] at hw
+    simp only [srun]
+    rw [lastStore_append, sstep_lastStore log c hg b op hw.1]
+    exact ih _ hw.2
 
 theorem covered_mono (log : List Entry) (mk : Nat → Bool) (lo v : Int) (D D' : List Nat) (h : ∀ i ∈ D, i ∈ D')
     (hc : covered log mk lo v D = true) : covered log mk lo v D' = true := by
